@@ -130,6 +130,8 @@ Definition state_of (s : st) (n : str) : sstate :=
 Definition set_state (n : str) (x : sstate) (s : st) : st := w_states (aset (states s) n x) s.
 Definition reg (k : str) (v : ir) (s : st) : st := w_parsed (aset (parsed s) k v) s.
 Definition registered (k : str) (s : st) : bool := match alookup k (parsed s) with Some _ => true | None => false end.
+Definition cut_off (k : str) (s : st) : bool :=            (* registered as a depth-limit placeholder *)
+  match alookup k (parsed s) with Some e => i_depthm e | None => false end.
 
 Fixpoint update_id (id : N) (f : ir -> ir) (l : list (str * ir)) : list (str * ir) :=
   match l with
@@ -410,7 +412,8 @@ Section WithConfig.
                             | None => false
                             end in
             if pure_ref then (r, s1)
-            else if registered n s1 then (r, s1) else (r, reg n r s1)
+            (* a depth placeholder under the alias name is replaced by the re-parse (follow-up of F02d) *)
+            else if registered n s1 && negb (cut_off n s1) then (r, s1) else (r, reg n r s1)
           else (r, s1)
         | None => (r, s1)
         end
@@ -492,12 +495,10 @@ Section WithConfig.
     end.
 
   (* build_schemas (since the fix of F02d): a depth placeholder stored while parsing ANOTHER schema does not count as
-     parsed; passes are repeated (at most len(raw_schemas) times) over the names still pending at the start of the
-     pass; before a schema is (re-)parsed its tracker state is dropped (schema_states.pop: modelled as NOT_STARTED,
+     parsed; passes are repeated (at most len(raw_schemas)+1 times); before a schema is (re-)parsed its tracker state is dropped (schema_states.pop: modelled as NOT_STARTED,
      which is what a missing key reads as). *)
   Definition unparsed (k : str) (s : st) : bool :=
     match alookup k (parsed s) with Some e => i_depthm e | None => true end.
-  Definition pending_b (s : st) (p : str * node) : bool := unparsed (fst p) s && unparsed (cls (fst p)) s.
 
   Fixpoint build_pass (fuel : nat) (l : spec) (s : st) : st :=
     match l with
@@ -508,16 +509,25 @@ Section WithConfig.
       else build_pass fuel r s
     end.
 
-  Fixpoint build_iter (k : nat) (fuel : nat) (s : st) : st :=
+  (* passes (follow-up of F02d): the first pass visits every schema; later passes only the schemas that are registered
+     as depth-limit placeholders; the loop stops when nothing is pending or a pass left the pending list unchanged *)
+  Definition cutoff_b (s : st) (p : str * node) : bool := cut_off (fst p) s || cut_off (cls (fst p)) s.
+  Definition is_nil {A} (l : list A) : bool := match l with [] => true | _ => false end.
+  Definition same_names (prev : option spec) (pend : spec) : bool :=
+    match prev with
+    | None => false
+    | Some p => list_eqb str_eqb (map fst p) (map fst pend)
+    end.
+
+  Fixpoint build_iter (k : nat) (fuel : nat) (pend : spec) (prev : option spec) (s : st) : st :=
     match k with
     | O => s
     | Datatypes.S k' =>
-      match filter (pending_b s) S with
-      | [] => s
-      | pend => build_iter k' fuel (build_pass fuel pend s)
-      end
+      if is_nil pend || same_names prev pend then s
+      else let s1 := build_pass fuel pend s in
+           build_iter k' fuel (filter (cutoff_b s1) S) (Some pend) s1
     end.
-  Definition build (fuel : nat) (s : st) : st := build_iter (length S) fuel s.
+  Definition build (fuel : nat) (s : st) : st := build_iter (length S + 1) fuel S None s.
   Definition all_present (s : st) : bool :=
     forallb (fun p => registered (fst p) s || registered (cls (fst p)) s) S.
 End WithConfig.
@@ -659,23 +669,31 @@ Fixpoint ty_of (x : node) {struct x} : tyref :=
 
 Definition dmember : Type := @member tyref.
 
+(* the type a property denotes, given the (sanitised) name of the schema it belongs to: an inline object property is
+   promoted to the schema <Parent><Prop> and the property refers to it *)
+Definition ty_of_prop (parent : option str) (key : str) (x : node) : tyref :=
+  match x with
+  | Obj _ _ => match parent_truthy parent with Some p => TRef (p ++ cls key) | None => ty_of x end
+  | _ => ty_of x
+  end.
+
 Fixpoint decl_members (rec : node -> option dmember) (l : list node) (acc : list dmember) : option dmember :=
   match l with
   | [] => Some (merge_props (rev acc), merge_req [] (rev acc))
   | x :: r => match rec x with Some m => decl_members rec r (m :: acc) | None => None end
   end.
 
-Fixpoint decl_node (fuel : nat) (S : spec) (nd : node) {struct fuel} : option dmember :=
+Fixpoint decl_node (fuel : nat) (S : spec) (parent : option str) (nd : node) {struct fuel} : option dmember :=
   match fuel with
   | O => None
   | Datatypes.S f =>
     match nd with
-    | Obj ps rq => Some (merge_into [] (map (fun kv => (fst kv, ty_of (snd kv))) ps), rq)
+    | Obj ps rq => Some (merge_into [] (map (fun kv => (fst kv, ty_of_prop parent (fst kv) (snd kv))) ps), rq)
     | Ref m => match alookup m S with
-               | Some nd' => decl_node f S nd'
+               | Some nd' => decl_node f S (Some m) nd'
                | None => Some ([], [])
                end
-    | AllOf l => decl_members (decl_node f S) l []
+    | AllOf l => decl_members (decl_node f S None) l []
     | _ => Some ([], [])
     end
   end.
@@ -685,7 +703,7 @@ Definition fields_of_member (m : dmember) : list field :=
 
 Definition declared_f (fuel : nat) (S : spec) (n : str) : option (list field) :=
   match alookup n S with
-  | Some nd => option_map fields_of_member (decl_node fuel S nd)
+  | Some nd => option_map fields_of_member (decl_node fuel S (Some n) nd)
   | None => None
   end.
 Definition declared (S : spec) (n : str) : option (list field) := declared_f (2 * length S + 2) S n.
@@ -741,13 +759,15 @@ Definition core_prop (x : node) : bool :=
   match x with Ref _ | Prim _ => true | Arr y => core_item y | _ => false end.
 Definition core_obj (x : node) : bool :=
   match x with Obj ps _ => forallb (fun kv => core_prop (snd kv)) ps | _ => false end.
-Definition core_member (x : node) : bool := is_ref x || core_obj x.
+Definition core_member (x : node) : bool := is_ref x || core_obj x || prim_typed x.
 Definition core_top (x : node) : bool :=
   match x with
   | Obj _ _ => core_obj x
   | AllOf l => forallb core_member l
   | Prim _ | EnumN => true
   | Arr y => core_item y
+  | MapN y => core_item y                       (* top-level map of ($ref | primitive | enum) *)
+  | OneOf l | AnyOf l => forallb core_item l    (* top-level union of ($ref | primitive | enum) *)
   | _ => false
   end.
 Fixpoint prop_keys (x : node) : list str :=
@@ -780,3 +800,44 @@ Definition ranked_b (rk : list (str * nat)) (S : spec) : bool :=
 Definition depth_ok (rk : list (str * nat)) (S : spec) (md : N) : bool :=
   forallb (fun p => (4 * N.of_nat (rank_of rk (fst p)) + 4 <=? md)%N) S.
 
+
+(* ------------------------------------------------------------------ structural kind of a schema's own model:
+   "typed with the structural kind the spec gives" for the schema itself (unions are not claimed: members that carry no
+   information are filtered out by the oneOf/anyOf parser) *)
+Definition kind_ok (nd : node) (e : ir) : Prop :=
+  match nd with
+  | Obj _ _ | AllOf _ => i_ty e = Some TyObject
+  | Arr y => struct_of e = TList (ty_of y)
+  | MapN y => struct_of e = TMap (ty_of y)
+  | Prim k => struct_of e = TPrim k
+  | EnumN => struct_of e = TEnum
+  | _ => True
+  end.
+
+(* ------------------------------------------------------------------ one level of inline object properties.
+   An inline object property `key` of a top-level object schema n is promoted to the schema n ++ cls key (registered under
+   that synthetic name); [nt] is the name table: declared schemas followed by the promoted inline objects.
+   [inl_spec] widens [core_spec]: properties of a top-level object may also be inline objects of core properties; the
+   executable negation of name capture is that all names of the table are distinct, and no property key is one of them. *)
+Definition is_obj (x : node) : bool := match x with Obj _ _ => true | _ => false end.
+Definition inl_prop (x : node) : bool := core_prop x || core_obj x.
+Definition inl_obj (x : node) : bool :=
+  match x with Obj ps _ => forallb (fun kv => inl_prop (snd kv)) ps | _ => false end.
+Definition inl_top (x : node) : bool := match x with Obj _ _ => inl_obj x | _ => core_top x end.
+Definition syn_of (p : str) (nd : node) : spec :=
+  match nd with
+  | Obj ps _ => flat_map (fun kv => if is_obj (snd kv) then [(p ++ cls (fst kv), snd kv)] else []) ps
+  | _ => []
+  end.
+Definition nt (S : spec) : spec := S ++ flat_map (fun p => syn_of (fst p) (snd p)) S.
+Definition deep_keys (x : node) : list str :=
+  prop_keys x ++
+  match x with
+  | Obj ps _ => flat_map (fun kv => if is_obj (snd kv) then prop_keys (snd kv) else []) ps
+  | _ => []
+  end.
+Definition inl_spec (S : spec) : bool :=
+  forallb (fun p => inl_top (snd p) && str_eqb (cls (fst p)) (fst p) && nonempty (fst p)
+                    && forallb (fun k => negb (mem_str k (map fst (nt S)))) (deep_keys (snd p))
+                    && forallb (fun m => mem_str m (map fst S)) (refs (snd p))) S     (* every $ref is declared *)
+  && nodup_strs (map fst (nt S)).
